@@ -130,6 +130,23 @@ def run_case(case, res):
         nodes = gen.build(t, f, lambda i: "x", kind=(lambda i: "k") if typed else None, data_id=lambda i: f"n{i}")
     else:
         nodes = gen.build(t, f, lambda i: f"n{i}", kind=(lambda i: "k") if typed else None)
+    if case.get("prelude"):
+        # refused calls / add+remove pairs first (a leaf may be left with an empty child list instead of None);
+        # the set of nodes is unchanged by construction of the prelude below
+        prng = rng_for(case.get("pseed", 0), "c16-prelude", case["f"])
+        for nd in nodes:
+            r = prng.random()
+            try:
+                if r < 0.3:
+                    nd.add(nd, deep=True, data_id="not-allowed", **({"kind": "k"} if typed else {}))
+                elif r < 0.5:
+                    nd.add([1, 2], **({"kind": "k"} if typed else {}))  # unhashable data
+                elif r < 0.7:
+                    nd.add("tmp", **({"kind": "k"} if typed else {})).remove()
+                elif r < 0.8:
+                    nd.add("tmp", before=nd, **({"kind": "k"} if typed else {}))
+            except Exception:
+                pass
     start = case["start"]
     variant = case["variant"]  # node: "self"/"noself"; tree: "default"/"notitle"/"text"
     bad = []
@@ -257,6 +274,17 @@ def run_case(case, res):
                                         p = p.parent
                                     if anc[::-1] != inf[3]:
                                         bad.append(f"decoded ancestor flags {inf[3]} != {anc[::-1]} for {ln!r}")
+                # join="" concatenates the lines (format == "".join(format_iter))
+                if sname not in ("default",) and not sname.startswith("custom"):
+                    kwj = {"style": "list"} if sname == "list" else {"style": sname}
+                    if start == -1:
+                        a = attempt(lambda: t.format(repr="<{node.data_id}>" if eq else "<{node.data}>", join="", **kwj))
+                        b = attempt(lambda: "".join(t.format_iter(repr="<{node.data_id}>" if eq else "<{node.data}>", **kwj)))
+                    else:
+                        a = attempt(lambda: nodes[start].format(repr="<{node.data_id}>" if eq else "<{node.data}>", join="", add_self=variant == "self", **kwj))
+                        b = attempt(lambda: "".join(nodes[start].format_iter(repr="<{node.data_id}>" if eq else "<{node.data}>", add_self=variant == "self", **kwj)))
+                    if a != b:
+                        bad.append(f"format(join='') = {a!r} differs from ''.join(format_iter()) = {b!r} (style {sname})")
                 # format_iter agrees with format
                 if start == -1:
                     a = attempt(lambda: list(t.format_iter(repr="<{node.data}>", style=None if sname in ("default", "list") or sname.startswith("custom") else sname)))
@@ -297,7 +325,7 @@ def shards(tier, seed):
     bound = 6 if tier == "quick" else 7
     out = [{"name": f"enum{i}", "kind": "enum", "i": i, "bound": bound, "budget_s": 150 if tier == "quick" else 1800}
            for i in range(NSHARDS)]
-    out += [{"name": f"rand{i}", "kind": "rand", "i": i, "count": 3 if tier == "quick" else 25,
+    out += [{"name": f"rand{i}", "kind": "rand", "i": i, "count": 3 if tier == "quick" else 120,
              "budget_s": 90 if tier == "quick" else 900} for i in range(NSHARDS)]
     return out
 
@@ -317,6 +345,8 @@ def run_shard(spec, res):
                             run_case({"cls": cls, "f": gen.code(f), "start": start, "variant": v}, res)
                             if n >= 2 and n <= 5 and cls == "plain":
                                 run_case({"cls": cls, "f": gen.code(f), "start": start, "variant": v, "lab": "eqsib"}, res)
+                            if 1 <= n <= 5 and (k // NSHARDS + start) % 2 == 0:
+                                run_case({"cls": cls, "f": gen.code(f), "start": start, "variant": v, "prelude": True, "pseed": k}, res)
                 if res.expired():
                     res.count("exhaustive_cut")
                     res.inconc("enumeration cut by time budget")
@@ -329,7 +359,7 @@ def run_shard(spec, res):
             for start in [-1] + rng.sample(range(n), min(n, 4)):
                 for v in variants_for(start):
                     run_case({"cls": rng.choice(["plain", "typed"]), "f": gen.code(f), "start": start, "variant": v,
-                              "lab": rng.choice(["uniq", "eqsib"])}, res)
+                              "lab": rng.choice(["uniq", "eqsib"]), "prelude": rng.random() < 0.4, "pseed": rng.randrange(10**6)}, res)
             if res.expired():
                 break
 
